@@ -9,9 +9,9 @@ for d in sorted(glob.glob('/verif/seeded/*')):
     m = json.load(open(mp))
     r = json.load(open(os.path.join(d, 'result.json'))) if os.path.exists(os.path.join(d, 'result.json')) else None
     sid = os.path.basename(d)
-    origin = 'reverted fix' if sid.startswith('revert-') else 'independent agent'
+    origin = 'reverted fix' if sid.startswith('revert-') else ('author mutant' if sid.startswith('author-') else 'independent agent')
     conf = m.get('confirmed', {}).get('ok')
-    conf_s = 'n/a' if sid.startswith('revert-') else ('yes' if conf else ('NO' if conf is False else 'pending'))
+    conf_s = 'n/a' if sid.startswith(('revert-', 'author-')) else ('yes' if conf else ('NO' if conf is False else 'pending'))
     summ = (m.get('summary') or m.get('fix_subject') or '')
     summ = summ.replace('|', '/').replace('\n', ' ')
     if len(summ) > 150:
